@@ -649,9 +649,14 @@ func main() {
 		"the instrumented copy behaves as the shipped code when no hook is installed (the repository's own tests pass on it; checked by setup and the thorough tier)",
 		"go1.26.8 testing/synctest quiescence detection and fake clock are trusted",
 	}
-	os.MkdirAll(filepath.Join(verif, "evidence"), 0o755)
+	evDir := filepath.Join(verif, "evidence")
+	if os.Getenv("GSIM_REPO") != "" {
+		// a developer run against another tree never touches the committed evidence
+		evDir = filepath.Join(os.TempDir(), "gsim-evidence-othertree")
+	}
+	os.MkdirAll(evDir, 0o755)
 	js, _ := json.MarshalIndent(ev, "", " ")
-	os.WriteFile(filepath.Join(verif, "evidence", *prop+".json"), append(js, '\n'), 0o644)
+	os.WriteFile(filepath.Join(evDir, *prop+".json"), append(js, '\n'), 0o644)
 
 	fmt.Printf("explored %d worlds (%d distinct non-trivial) in %.1fs search (+%.1fs build); decisions=%d switches=%d sim_time=%.0fs sites=%d/%d\n",
 		total.Worlds, len(distinct), searchS, buildS, total.Decisions, total.Switches, float64(total.SimNs)/1e9, len(sites), len(b.report.Sites))
